@@ -2388,10 +2388,10 @@ size_t extract_glossary_from_stack(scratch_pad * scratch, const char * target) {
 }
 
 
-void footnote_from_bracket(const char * source, scratch_pad * scratch, token * t, short * num) {
+void footnote_from_bracket(const char * source, scratch_pad * scratch, token * t, int * num) {
 	// Get text inside bracket
 	char * text = text_inside_pair(source, t);
-	short footnote_id = extract_footnote_from_stack(scratch, text);
+	int footnote_id = (int) extract_footnote_from_stack(scratch, text);
 
 	free(text);
 
@@ -2418,10 +2418,10 @@ void footnote_from_bracket(const char * source, scratch_pad * scratch, token * t
 }
 
 
-void citation_from_bracket(const char * source, scratch_pad * scratch, token * t, short * num) {
+void citation_from_bracket(const char * source, scratch_pad * scratch, token * t, int * num) {
 	// Get text inside bracket
 	char * text = text_inside_pair(source, t);
-	short citation_id = extract_citation_from_stack(scratch, text);
+	int citation_id = (int) extract_citation_from_stack(scratch, text);
 
 	free(text);
 
@@ -2455,7 +2455,7 @@ void citation_from_bracket(const char * source, scratch_pad * scratch, token * t
 }
 
 
-void glossary_from_bracket(const char * source, scratch_pad * scratch, token * t, short * num) {
+void glossary_from_bracket(const char * source, scratch_pad * scratch, token * t, int * num) {
 	// Get text inside bracket
 	char * text;
 
@@ -2468,7 +2468,7 @@ void glossary_from_bracket(const char * source, scratch_pad * scratch, token * t
 		text[t->len] = '\0';
 	}
 
-	short glossary_id = extract_glossary_from_stack(scratch, text);
+	int glossary_id = (int) extract_glossary_from_stack(scratch, text);
 
 	free(text);
 
@@ -2508,7 +2508,7 @@ void glossary_from_bracket(const char * source, scratch_pad * scratch, token * t
 }
 
 
-void abbreviation_from_bracket(const char * source, scratch_pad * scratch, token * t, short * num) {
+void abbreviation_from_bracket(const char * source, scratch_pad * scratch, token * t, int * num) {
 	// Get text inside bracket
 	char * text;
 
@@ -2521,7 +2521,7 @@ void abbreviation_from_bracket(const char * source, scratch_pad * scratch, token
 		text[t->len + 1] = '\0';
 	}
 
-	short abbr_id = extract_abbreviation_from_stack(scratch, &text[1]);
+	int abbr_id = (int) extract_abbreviation_from_stack(scratch, &text[1]);
 
 	free(text);
 
